@@ -20,6 +20,9 @@ TOpts == {o \in [lg : DateUnits \cup {"hour", "minute"}, sm : DateUnits \cup {"h
 C04Rels == QRels \cup {Date(2021, 2, 28), Date(2020, 3, 31), Date(2019, 3, 1)}
 C04Durs == {Dm(0, 0, 0, 0, 0, 0, 0, 0)}
 C04Opts == {o \in [lg : DateUnits, sm : DateUnits, inc : {1, 2, 3, 7}, mode : Modes] : UnitLe(o.sm, o.lg)}
+\* C05: PlainDateTime.until / since with rounding options
+C05Opts == {o \in [lg : {"year", "month", "week", "day", "hour", "second"}, sm : {"month", "week", "day", "hour", "minute", "second", "nanosecond"}, inc : {1, 2, 15}, mode : {"trunc", "ceil", "halfExpand"}] :
+              /\ UnitLe(o.sm, o.lg) /\ (o.sm = "hour" => o.inc \in {1, 2}) /\ (o.sm = "nanosecond" => o.inc \in {1, 2})}
 AllTotalUnits == {"year", "month", "week", "day", "hour", "second", "nanosecond"}
 NoOpts == {}
 NoUnits == {}
@@ -36,7 +39,11 @@ Carried == IF last.op = "round" /\ last.out.kind = "ok" THEN
 Cls == CASE last.op = "round" -> "sm-" \o O.sm \o "/lg-" \o O.lg \o "/" \o Carried \o (IF last.rel.d > 28 THEN "/eom" ELSE "/mid") \o (IF Sg < 0 THEN "/neg" ELSE "/pos")
          [] last.op = "total" -> last.u \o (IF last.rel.d > 28 THEN "/eom" ELSE "/mid") \o (IF Sg < 0 THEN "/neg" ELSE "/pos")
          [] last.op = "datediff" -> (IF last.since THEN "since" ELSE "until") \o (IF last.bare THEN "/no-units" ELSE "") \o "/sm-" \o last.o.sm \o "/lg-" \o last.o.lg \o (IF last.rel.d > 28 THEN "/eom" ELSE "/mid")
+         [] last.op = "dtdiff" -> (IF last.since THEN "since" ELSE "until") \o (IF last.nomode THEN "/no-mode" ELSE "") \o (IF last.cal = "gregory" THEN "/gregory" ELSE "") \o "/sm-" \o last.o.sm \o "/lg-" \o last.o.lg
+                                  \o (IF Cmp(TimeNsOf(last.a.time), TimeNsOf(last.b.time)) < 0 THEN "/t<" ELSE "/t>") \o (IF CmpDT(last.a, last.b) < 0 THEN "/fwd" ELSE "/back")
          [] last.op = "compare" -> (IF HasCalendarUnits(last.dur) \/ HasCalendarUnits(last.b) THEN "calendar" ELSE "days-time")
+DTJ2(x, cal) == LET j == [y |-> x.date.y, m |-> x.date.m, d |-> x.date.d, h |-> x.time.h, mi |-> x.time.mi, s |-> x.time.s, ms |-> x.time.ms, us |-> x.time.us, ns |-> x.time.ns]
+                IN IF cal = "iso8601" THEN j ELSE j @@ [cal |-> cal]
 CaseOf ==
   CASE last.op = "round" -> [op |-> "Duration.round", cls |-> Cls, args |-> [recv |-> last.dur, rel |-> last.rel, st |-> [largest |-> O.lg, smallest |-> O.sm, inc |-> O.inc, mode |-> O.mode]], out |-> last.out]
     [] last.op = "total" -> [op |-> "Duration.total", cls |-> Cls, args |-> [recv |-> last.dur, rel |-> last.rel, unit |-> last.u],
@@ -45,6 +52,11 @@ CaseOf ==
                                 args |-> [recv |-> last.rel, other |-> last.b,
                                           st |-> IF last.bare THEN [inc |-> last.o.inc, mode |-> last.o.mode] ELSE [largest |-> last.o.lg, smallest |-> last.o.sm, inc |-> last.o.inc, mode |-> last.o.mode]],
                                 out |-> last.out]
+    [] last.op = "dtdiff" -> [op |-> IF last.since THEN "PlainDateTime.since" ELSE "PlainDateTime.until", cls |-> Cls,
+                              args |-> [recv |-> DTJ2(last.a, last.cal), other |-> DTJ2(last.b, last.cal),
+                                        st |-> IF last.nomode THEN [largest |-> last.o.lg, smallest |-> last.o.sm, inc |-> last.o.inc]
+                                               ELSE [largest |-> last.o.lg, smallest |-> last.o.sm, inc |-> last.o.inc, mode |-> last.o.mode]],
+                              out |-> last.out]
     [] last.op = "compare" -> [op |-> "Duration.compare", cls |-> Cls, args |-> [recv |-> last.dur, other |-> last.b, rel |-> last.rel], out |-> last.out]
 Emit == last.op = "none" \/ PrintT("CASE " \o ToJson(CaseOf))
 =============================================================================
